@@ -487,6 +487,40 @@ pub struct Nested {
 pub struct BadNoneInSeq {
     pub a: Vec<Option<i32>>,
 }
+/// the unsupported shape sits among ordinary fields: after an absent optional field, before
+/// another one, next to a nested table
+#[derive(Serialize, Deserialize, Debug, Clone)]
+pub struct BadCtx {
+    pub first: Option<i32>,
+    pub a: Vec<Option<i32>>,
+    pub inner: Inner,
+    pub second: Option<String>,
+    pub b: Vec<Vec<Option<String>>>,
+    pub e: Option<EN>,
+    pub last: Option<i32>,
+}
+#[derive(Serialize, Deserialize, Debug, Clone)]
+pub enum EN {
+    N(Option<i32>),
+    V(Vec<Option<i32>>),
+    Fine(i32),
+}
+pub fn g_bad_ctx(t: &mut Tape) -> BadCtx {
+    BadCtx {
+        first: g_opt(t, g_i32),
+        a: g_vec(t, 3, |t| g_opt(t, g_i32)),
+        inner: g_inner(t),
+        second: g_opt(t, g_string),
+        b: g_vec(t, 2, |t| g_vec(t, 2, |t| g_opt(t, g_string))),
+        e: g_opt(t, |t| match t.below(3) {
+            0 => EN::N(g_opt(t, g_i32)),
+            1 => EN::V(g_vec(t, 2, |t| g_opt(t, g_i32))),
+            _ => EN::Fine(g_i32(t)),
+        }),
+        last: g_opt(t, g_i32),
+    }
+}
+
 #[derive(Serialize, Deserialize, Debug, Clone)]
 pub struct BadUnitInSeq {
     pub a: Vec<()>,
